@@ -22,6 +22,12 @@ var checks = map[string]checkFn{}
 
 func register(id string, f checkFn) { checks[id] = f }
 
+// extensions: rules added to a property after its main check function was written (rule sharing between
+// properties, later rounds); run after the main function on the same Run.
+var extensions = map[string][]checkFn{}
+
+func extend(id string, f checkFn) { extensions[id] = append(extensions[id], f) }
+
 func main() {
 	prop := flag.String("prop", "", "property id (C01..C20) or 'all'")
 	tier := flag.String("tier", "quick", "quick | thorough")
@@ -114,7 +120,13 @@ func main() {
 	os.Exit(code)
 }
 
-func runOne(P *Prog, id, tier, verif string, f checkFn, start time.Time) (code int) {
+func runOne(P *Prog, id, tier, verif string, f0 checkFn, start time.Time) (code int) {
+	f := func(r *Run) {
+		f0(r)
+		for _, x := range extensions[id] {
+			x(r)
+		}
+	}
 	r := NewRun(P, id, tier)
 	defer func() {
 		if e := recover(); e != nil {
@@ -127,9 +139,25 @@ func runOne(P *Prog, id, tier, verif string, f checkFn, start time.Time) (code i
 	}()
 	r.Stats["repo_packages"] = len(P.Pkgs)
 	r.Stats["repo_functions"] = len(P.RepoFns)
+	if tier == "thorough" {
+		miss, total := P.CG().CrossCheckVTA()
+		r.Stats["vta_repo_edges"] = total
+		r.Stats["vta_edges_missing_from_repo_graph"] = len(miss)
+		r.Extra["callgraph_crosscheck"] = map[string]interface{}{"rule": "every repo→repo edge of VTA(CHA) over the whole program is an edge of the repo call graph; missing ones are added before the rules run", "vta_repo_edges": total, "added": miss}
+	}
 	f(r)
 	if tier == "thorough" {
-		thoroughExtras(r)
+		runThorough(P, P.RepoDir, verif, id, f, r)
+		sens := sensitivityReplay(P.RepoDir, verif, id)
+		fired := 0
+		for _, s := range sens {
+			if s.Status == "fired" {
+				fired++
+			}
+		}
+		r.Stats["sensitivity_patches"] = len(sens)
+		r.Stats["sensitivity_fired"] = fired
+		r.Extra["sensitivity_replay"] = map[string]interface{}{"what": "recorded property-breaking patches applied to a scratch copy of the current tree; the quick rules must report VIOLATION there (informational: does not change the verdict)", "results": sens}
 	}
 	return r.Finish(verif, start)
 }
@@ -193,7 +221,5 @@ func doDump(P *Prog, name string) {
 		fmt.Printf("  unresolved %s in %s\n", P.InstrPos(u), short(u.Parent().String()))
 	}
 }
-
-func thoroughExtras(r *Run) {}
 
 var _ = filepath.Join
